@@ -146,7 +146,7 @@ def edit_cases(m):
         x, y = d.elem('x'), d.elem('y')
         f1, f2 = d.elem('f1'), d.elem('f2')
         F = d.frag('F', [f1, f2])
-        return d, dict(P=P, a=a, b=b, x=x, y=y, F=F, f1=f1, f2=f2)
+        return d, dict(P=P, a=a, b=b, x=x, y=y, F=F, f1=f1, f2=f2, E=d.frag('E', []))
 
     def twins():
         d = D.Dom(m)
@@ -188,6 +188,11 @@ def edit_cases(m):
     add('pop', 'by index', base, {'index': 0}, ['b'])
     add('__setitem__', 'a node', base, {'i': 0, 'node': 'x'}, ['x', 'b'])
     add('__setitem__', 'a fragment', base, {'i': 0, 'node': 'F'}, ['f1', 'f2', 'b'])
+    add('__setitem__', 'an empty fragment removes the addressed child only', base, {'i': 0, 'node': 'E'}, ['b'])
+    add('__setitem__', 'an empty fragment at the last position', base, {'i': 1, 'node': 'E'}, ['a'])
+    add('__setitem__', 'a fragment at the last position', base, {'i': 1, 'node': 'F'}, ['a', 'f1', 'f2'])
+    add('append', 'an empty fragment adds nothing', base, {'newChild': 'E'}, ['a', 'b'])
+    add('insert', 'an empty fragment adds nothing', base, {'i': 1, 'newChild': 'E'}, ['a', 'b'])
     add('extend', 'a list of nodes', base, {'other': ['x', 'y']}, ['a', 'b', 'x', 'y'])
     return C
 
@@ -241,16 +246,38 @@ def r63(chk, m):
     for name, which, want in (('_nextSibling', 't2', 'c'), ('_nextSibling', 't1', 'b'), ('_previousSibling', 't2', 'b'), ('_previousSibling', 'c', 't2'),
                               ('_nextSibling', 'c', 'None'), ('_previousSibling', 't1', 'None')):
         fn = m.func_or_none(mod, name)
-        need(fn is not None, '%s not found' % name)
-        chk.analysed(fn)
         d = D.Dom(m)
-        t1, t2 = d.text('t1', 'same'), d.text('t2', 'same')
+        if fn is not None:
+            chk.analysed(fn)
+            t1, t2 = d.text('t1', 'same'), d.text('t2', 'same')
+        else:
+            # not a plain function any more (a partial object, a method ...): the property is read on the node, whatever computes it;
+            # the equal siblings are two empty elements that compare equal
+            t1, t2 = d.elem('t1', eq='same'), d.elem('t2', eq='same')
         b, c = d.elem('b'), d.elem('c')
         P = d.elem('P', [t1, b, t2, c])
         for t in (t1, t2):
             t.attrs['parentNode'] = P
         nodes = dict(t1=t1, t2=t2, b=b, c=c)
-        outs = D.run(m, fn, {'self': nodes[which]})
+        if fn is not None:
+            outs = D.run(m, fn, {'self': nodes[which]})
+        else:
+            Node_ = m.cls(DOM, 'Node')
+            scope = m.find_method(Node_, 'hasChildNodes') or next(iter(Node_.methods.values()))
+            fn = scope
+            h = D.DomHooks(m, Node_)
+            it = A.Interp(model=m, scope=scope, hooks=h, max_iter=12, exc_edges=False, inline=8, heap=True, precise_exc=True)
+            st = A.State({'self': nodes[which]})
+            try:
+                val = it.ev(ast.parse('self.%s' % name.strip('_'), mode='eval').body, st)
+            except AnalysisError as e:
+                chk.undecided(R, '%s of %s among [t1, b, t2, c] (t1 == t2)' % (name.strip('_'), which), str(e), chk.where(Node_))
+                continue
+            if it.imprecise or it.unknown_branches or val is A.TOP:
+                chk.undecided(R, '%s of %s among [t1, b, t2, c] (t1 == t2)' % (name.strip('_'), which),
+                              'reading the property gives %r (%s)' % (val, '; '.join((list(it.imprecise) + list(it.unknown_branches))[:2])), chk.where(Node_))
+                continue
+            outs = [('return' if '__exc' not in st.env else 'raise', st, val)]
         got = {(k2, D.label_of(v) if v is not None else 'None') for k2, s2, v in outs}
         chk.decide(R, '%s of %s among [t1, b, t2, c] (t1 == t2)' % (name.strip('_'), which), got, {('return', want)},
                    '%s(%s) with children [t1, b, t2, c] where t1 and t2 compare equal gives %s; expected %s (the position must be found by identity)'
@@ -374,6 +401,32 @@ def r64_r66(chk, m):
     chk.decide(R6, 'cloneNode(deep) clones node-valued attributes', {repr(g) for g in got}, {repr(want)},
                'deep clone of an element with attributes {title: node, toc: fragment, n: 3}: (outcome, keys, title shared, toc shared, n, original title '
                'still parented by the original) = %s; expected %s' % (sorted(got, key=repr), want), chk.where(fn))
+    # a text node, and nodes inside a list / a dictionary, held in the attribute map
+    d = D.Dom(m)
+    txt = d.text('caption-text', 'Caption')
+    inlist, indict = d.elem('in-list'), d.elem('in-dict')
+    E = d.elem('E', [], attributes={'label': txt, 'items': [inlist, 7], 'table': {'k': indict}})
+    txt.attrs['parentNode'] = E
+    try:
+        outs = D.run(m, fn, {'self': E, 'deep': True, '__P': E}, cls=Node)
+        got = set()
+        for k2, s2, v in outs:
+            E2 = s2.env['__P']
+            oa = E2.attrs.get('attributes')
+            ca = v.attrs.get('attributes') if isinstance(v, A.Obj) else None
+            if not isinstance(ca, dict) or not isinstance(oa, dict) or not isinstance(ca.get('items'), list) or not isinstance(ca.get('table'), dict):
+                got.add((k2, 'TOP'))
+                continue
+            got.add((k2, 'text shared' if ca.get('label') is oa.get('label') else 'text cloned', str(ca.get('label')) if isinstance(ca.get('label'), str) else 'TOP',
+                     'list item shared' if ca['items'][:1] and ca['items'][0] is oa['items'][0] else 'list item cloned', ca['items'][1:] == [7],
+                     'dict item shared' if ca['table'].get('k') is oa['table'].get('k') else 'dict item cloned',
+                     'original text still parented by the original' if oa['label'].attrs.get('parentNode') is E2 else 'original text re-parented'))
+        want = ('return', 'text cloned', 'Caption', 'list item cloned', True, 'dict item cloned', 'original text still parented by the original')
+        chk.decide(R6, 'cloneNode(deep) clones text nodes and nodes inside containers of the attribute map', {repr(g) for g in got}, {repr(want)},
+                   'deep clone of an element with attributes {label: text node, items: [node, 7], table: {k: node}} gives %s; expected %s - a text node is '
+                   'a string and a node at once, and must be treated as a node' % (sorted(got, key=repr), want), chk.where(fn))
+    except D.Imprecise as ex:
+        chk.undecided(R6, 'cloneNode(deep) clones text nodes and nodes inside containers of the attribute map', str(ex), chk.where(fn))
     # normalize
     fn = m.find_method(Node, 'normalize')
     chk.analysed(fn)
